@@ -28,4 +28,21 @@ PROPS = {
             "unicode.ToUpper/ToLower on bytes are dumped into Gen/CaseTables.v by the translator each run",
         ],
     },
+    "C05": {
+        "harness": [{"cmd": "c05", "n": {"quick": 500, "thorough": 20000}}],
+        "rule": "every codon b1 b2 b3 over the 38-symbol residue alphabet (ACGTU + 11 IUPAC codes in both cases, "
+                "'-', X, x, ?, '.', '*') through the public Sequence.Translate (quick: one genetic code per (b1,b2) "
+                "chosen from the seed, thorough: all three = exhaustive), arbitrary byte triples through the "
+                "translateCodon hook, plus random sequences / sequence sets / alignments (frames -1..5, wrong "
+                "alphabets, unknown codes), CodonAlign on gapped translations (with too short/long/missing rows), "
+                "TranslateByReference with and without gaps; non-trivial = produced at least one residue or an error; "
+                "distinct = distinct (op, arguments)",
+        "nontrivial": lambda m: m.get("class") != "Ok" or any(len(s) > 0 for s in m.get("out_seqs", [])),
+        "assumptions": [
+            "seqbag/alignment rows have pairwise distinct names (AddSequence renaming is covered by C01)",
+            "fmt.Sprintf(\"%s_%d\") for frames 0..2 modelled as name ++ \"_\" ++ digit",
+            "TranslateByReference / CodonAlign clauses: model tied by correspondence; the two by-reference "
+            "clauses are Definitions (…_statement) checked per generated case by spec_ok, not proved",
+        ],
+    },
 }
